@@ -14,6 +14,8 @@ AWKWARD_NAMES = ["Options", "OptionalFeature", "Vec3", "Vector", "HashSetStats",
                  "Boolean", "U8", "I32Wrapper", "Record", "Tuple", "T", "Str", "Channel2",
                  # names TypeScript's own library uses (a project type shadows them inside its module)
                  "Date", "Map", "Set", "Error", "Event", "Promise", "Array", "Object", "Number", "Partial", "Symbol",
+                 # names that end the way generated names end (<Name>Schema, <Command>Params), next to their stems
+                 "Table", "TableSchema", "Schema", "JsonSchema", "QueryParams", "QueryParamsSchema", "Infer",
                  # multi-byte identifiers: every string operation of the tool on a type expression must respect character boundaries
                  "Größe", "データ", "Zoë"]
 SITES = ("param", "return", "field", "channel", "event", "event-let")
